@@ -1,7 +1,14 @@
 (* Proofs_atoms.v - (1) the erasure of the classified templates of Atoms.v IS the rendering of
    Render.v, function by function up to whole impls; (2) census lemmas over the atoms. *)
 From DW Require Export Atoms.
+From Coq Require Import Setoid Morphisms.
 Open Scope nat_scope.
+
+(* rewriting under the binders of flat_map / map (used by rewrite_strat below) *)
+Global Instance flat_map_pointwise {A B} : Proper (pointwise_relation A eq ==> eq ==> eq) (@flat_map A B).
+Proof. intros f g H l l' <-. apply flat_map_ext. exact H. Qed.
+Global Instance map_pointwise {A B} : Proper (pointwise_relation A eq ==> eq ==> eq) (@map A B).
+Proof. intros f g H l l' <-. apply map_ext. exact H. Qed.
 
 (* ---------- erase: basic algebra ---------- *)
 Lemma erase_nil : erase [] = [].
@@ -9,7 +16,7 @@ Proof. reflexivity. Qed.
 Lemma erase_cons a l : erase (a :: l) = erase_atom a ++ erase l.
 Proof. reflexivity. Qed.
 Lemma erase_app a b : erase (a ++ b) = erase a ++ erase b.
-Proof. unfold erase. apply flat_map_app. Qed.
+Proof. apply flat_map_app. Qed.
 Lemma erase_K l : erase (K l) = l.
 Proof. induction l as [|x l IH]; [reflexivity|]. cbn. f_equal. exact IH. Qed.
 Lemma erase_U l : erase (U l) = l.
@@ -36,7 +43,7 @@ Lemma erase_if (b : bool) x y : erase (if b then x else y) = if b then erase x e
 Proof. destruct b; reflexivity. Qed.
 
 Lemma erase_APath p : erase [APath p] = path_toks p.
-Proof. unfold erase. cbn [flat_map erase_atom]. apply app_nil_r. Qed.
+Proof. cbn [flat_map erase_atom]. apply app_nil_r. Qed.
 Lemma erase_acore segs : erase (acore segs) = core_path segs.
 Proof. unfold acore, core_path. apply erase_APath. Qed.
 Lemma erase_astd t : erase (astd t) = std_path t.
@@ -53,7 +60,9 @@ Global Hint Rewrite erase_nil erase_app erase_K erase_U @erase_flat_map erase_in
 
 (* normalise an [erase] of a template: push it through ++ and ::, compute the literal atoms *)
 Ltac er_step :=
-  repeat (rewrite ?erase_cons; autorewrite with er; cbn [erase_atom app]; rewrite ?app_nil_r, <- ?app_assoc).
+  repeat first [ progress (cbn [flat_map erase_atom app])
+               | progress (rewrite_strat (topdown (hints er)))
+               | progress (rewrite ?app_nil_r, <- ?app_assoc) ].
 
 Ltac er_ext :=
   er_step;
